@@ -113,7 +113,7 @@ var c20Historical = map[string][]string{
 func genHookState(r *Rng, c *Ctx, name string) hookState {
 	cur := currentHookText(c, name)
 	user := []byte("#!/bin/sh\n# my own hook\necho user-hook " + name + "\nexit 0\n")
-	switch r.Intn(14) {
+	switch r.Intn(15) {
 	case 0, 1:
 		return hookState{Kind: "absent"}
 	case 2:
@@ -150,6 +150,9 @@ func genHookState(r *Rng, c *Ctx, name string) hookState {
 	case 12:
 		u := append(append([]byte(nil), cur...), []byte("echo and-my-extra-line\n")...)
 		return hookState{Kind: "user-extended-template", Content: u, Mode: 0o755, User: true}
+	case 13:
+		// a symbolic link to a user script kept elsewhere (dotfiles): the link and the script it points to are the user's
+		return hookState{Kind: "symlink-user", Content: user, Mode: 0o755, User: true}
 	default:
 		return hookState{Kind: "user", Content: []byte("#!/usr/bin/env python3\nprint('hi')\n"), Mode: 0o755, User: true}
 	}
@@ -173,7 +176,12 @@ func c20Snapshot(dir, cfgFile, scope string) c20Snap {
 			continue
 		}
 		b, _ := os.ReadFile(p)
-		s.Hooks = append(s.Hooks, fmt.Sprintf("%o:%s", fi.Mode().Perm(), shaOrDash(b)))
+		if fi.Mode()&os.ModeSymlink != 0 {
+			tgt, _ := os.Readlink(p)
+			s.Hooks = append(s.Hooks, fmt.Sprintf("symlink->%s:%s", filepath.Base(filepath.Dir(tgt))+"/"+filepath.Base(tgt), shaOrDash(b)))
+		} else {
+			s.Hooks = append(s.Hooks, fmt.Sprintf("%o:%s", fi.Mode().Perm(), shaOrDash(b)))
+		}
 		s.Bytes = append(s.Bytes, b)
 	}
 	s.Filter = map[string]string{}
@@ -321,7 +329,14 @@ func runC20Case(c *Ctx, ci int, cs c20Case) (mlines, mimpl []string) {
 	for i, h := range cs.Hooks {
 		p := filepath.Join(dir, ".git", "hooks", c20Hooks[i])
 		os.Remove(p)
-		if h.Kind != "absent" {
+		if h.Kind == "symlink-user" {
+			tdir := filepath.Join(dir, ".git", "user-hooks")
+			os.MkdirAll(tdir, 0o755)
+			target := filepath.Join(tdir, c20Hooks[i])
+			os.WriteFile(target, h.Content, h.Mode)
+			os.Symlink(target, p)
+			nontrivial = true
+		} else if h.Kind != "absent" {
 			os.WriteFile(p, h.Content, h.Mode)
 			os.Chmod(p, h.Mode)
 			if h.Kind != "current" {
